@@ -74,4 +74,37 @@ VARIANTS = [
          old="        default=1,\n        ge=0,\n        developer=True,\n        description=\"Threshold", new="        default=1.0,\n        ge=0.0,\n        developer=True,\n        description=\"Threshold"),
     dict(id="c14-benign-validator-early-else", property="C14", kind="benign", file=S,
          old="            return self\n        \n        _check_developer_mode(self)\n\n        return self", new="        else:\n            _check_developer_mode(self)\n\n        return self"),
+
+    # ---- R14.6 cross-field validators
+    dict(id="c14-fbs-zero-accepted", property="C14", kind="break", expect_rule="R14.6", file=S,
+         old="            if self.final_bounds_scalar <= 0:", new="            if self.final_bounds_scalar < 0:"),
+    dict(id="c14-step-half-rejected", property="C14", kind="break", expect_rule="R14.6", file=S,
+         old="self.initial_step_percentage > 0.5:", new="self.initial_step_percentage >= 0.5:"),
+    dict(id="c14-step-validator-unregistered", property="C14", kind="break", expect_rule="R14.6", file=S,
+         old='    @pydantic.model_validator(mode="after")\n    def _check_initial_step_percentage(self):', new='    def _check_initial_step_percentage(self):'),
+    dict(id="c14-alpha-final-upper-open", property="C14", kind="break", expect_rule="R14.6", file=S,
+         old="(self.alpha_final > 2.0)", new="(self.alpha_final >= 2.0)"),
+    dict(id="c14-alpha-final-str-unchecked", property="C14", kind="break", expect_rule="R14.6", file=S,
+         old='            if self.alpha_final != "adaptive":', new='            if self.alpha_final == "":'),
+    dict(id="c14-nlopt-prefix", property="C14", kind="break", expect_rule="R14.6", file=S,
+         old='self.algorithm_choice[:5] in ["nlopt"]', new='self.algorithm_choice[:6] in ["nlopt"]'),
+    dict(id="c14-num-std-or-to-and", property="C14", kind="break", expect_rule="R14.6", file=S,
+         old="self.reduce_splits_num_std[0] <= 0 or self.reduce_splits_num_std[1] <= 0", new="self.reduce_splits_num_std[0] <= 0 and self.reduce_splits_num_std[1] <= 0"),
+    dict(id="c14-season-option-check-dropped", property="C14", kind="break", expect_rule="R14.6", file=S,
+         old="            if val not in self.options:\n                raise ValueError(f\"SeasonDefinition", new="            if val is None:\n                raise ValueError(f\"SeasonDefinition"),
+    dict(id="c14-edge-bins-else-dropped", property="C14", kind="break", expect_rule="R14.6", file=H,
+         old="            if self.edge_bin_rate is not None:\n                raise ValueError(\n                    \"'edge_bin_rate' must be None if 'include_edge_bins' is False.\"\n                )", new="            pass"),
+    dict(id="c14-adaptive-weights-early-return", property="C14", kind="break", expect_rule="R14.6", file=H,
+         old="    def _check_adaptive_weights(self):\n        if self.adaptive_weights:", new="    def _check_adaptive_weights(self):\n        if self.adaptive_weight_tol is None:\n            return self\n        if self.adaptive_weights:"),
+    dict(id="c14-validator-returns-none", property="C14", kind="break", expect_rule="R14.6", file=S,
+         old="                raise ValueError(\"`FINAL_BOUNDS_SCALAR` must be > 0 if `ALPHA_FINAL` is not None\")\n\n        return self", new="                raise ValueError(\"`FINAL_BOUNDS_SCALAR` must be > 0 if `ALPHA_FINAL` is not None\")\n"),
+    dict(id="c14-benign-validator-demorgan", property="C14", kind="benign", file=S,
+         old="            if self.initial_step_percentage <= 0 or self.initial_step_percentage > 0.5:", new="            if not (0 < self.initial_step_percentage <= 0.5):"),
+    dict(id="c14-benign-validator-startswith", property="C14", kind="benign", file=S,
+         old='self.algorithm_choice[:5] in ["nlopt"]', new='self.algorithm_choice.startswith("nlopt")'),
+    dict(id="c14-benign-validator-renamed", property="C14", kind="benign", file=H,
+         old="    def _check_adaptive_weights(self):", new="    def _validate_adaptive_weight_options(self):"),
+    dict(id="c14-benign-validators-merged", property="C14", kind="benign", file=S,
+         old="                raise ValueError(\"`FINAL_BOUNDS_SCALAR` must be > 0 if `ALPHA_FINAL` is not None\")\n\n        return self\n\n    \n    @pydantic.model_validator(mode=\"after\")\n    def _check_initial_step_percentage(self):\n",
+         new="                raise ValueError(\"`FINAL_BOUNDS_SCALAR` must be > 0 if `ALPHA_FINAL` is not None\")\n\n"),
 ]
